@@ -1,6 +1,8 @@
 import BoboVerif.Model.Engine
 import BoboVerif.Lemmas.Engine
 import BoboVerif.Gen.Wiring
+import BoboVerif.Model.EngineAsync
+import BoboVerif.Lemmas.EngineAsync
 /-!
 C02 — One complex event, one action run, one action event per completed run;
 conservation of the stream through the engine's queues.
@@ -17,6 +19,9 @@ Two notions of reachable state:
 * `FineReach P s` — `s` results from `add_data` / single task `update()` calls in ANY order
   (covers another thread calling `add_data` between two task updates of one engine update).
   Every `Reach` state is a `FineReach` state (`reach_fine`); the invariants are proved for `FineReach`.
+
+The final section ("the asynchronous handlers") proves the property for the thread-pool / process-pool handlers
+(Model/EngineAsync.lean, Lemmas/EngineAsync.lean): every order and moment of the pool's completions.
 -/
 namespace Bobo.Engine
 variable {σ : Type}
@@ -626,6 +631,824 @@ example :
     let P : Params Unit := { silentP with
       decide := fun _ _ => ((), ⟨[⟨"r", "zz", "pat", 1, []⟩], [], []⟩), datagenOf := fun _ => none }
     (runOps P {} (init ()) [.add (.raw (.int 1)), .update]).err = some "BoboProducerError zz" := by
+  decide
+
+/-! ## the asynchronous handlers (`BoboActionHandlerMultithreading` / `…Multiprocessing`)
+
+Model: Model/EngineAsync.lean; helper lemmas: Lemmas/EngineAsync.lean.  Same quantification as above (arbitrary
+matcher, validator, datagen, actions, generators, `Cfg`), plus: every order and every moment of the pool's completions
+— between two calls of the engine (`AOp.complete k`) and inside an engine update (`AOp.update script`, any script).
+
+* `ReachA P c s`   — `s` results from `add_data` / `BoboEngine.update` (under any pool script) / pool completions;
+* `FineReachA P s` — `s` results from `add_data`, single `update()` calls of any task (the forwarder's two halves
+  separately), pool completions and script changes, in ANY order.  Every `ReachA` state is a `FineReachA` state. -/
+
+def ReachA (P : Params σ) (c : Cfg) (s : ASt σ) : Prop := ∃ d ops, s = runOpsA P c (initA d) ops
+
+inductive FineReachA (P : Params σ) : ASt σ → Prop
+  | init (d : σ) : FineReachA P (initA d)
+  | add {s} (it : Item) : FineReachA P s → FineReachA P (addDataA .ext it s)
+  | recv {s} : FineReachA P s → FineReachA P (liftA (recvUpdate P) s).1
+  | dec {s} : FineReachA P s → FineReachA P (liftA (decUpdate P) s).1
+  | prod {s} : FineReachA P s → FineReachA P (liftA (prodUpdate P) s).1
+  | handle {s} : FineReachA P s → FineReachA P (fwdHandleA P s).1
+  | resp {s} : FineReachA P s → FineReachA P (fwdResponsesA P s).1
+  | complete {s} (k : Nat) : FineReachA P s → FineReachA P (complete k s)
+  | pool {s} (l : List (List Nat)) : FineReachA P s → FineReachA P { s with pool := l }
+  | clear {s} : FineReachA P s → FineReachA P { s with toSt := { s.toSt with err := none } }
+
+theorem fineA_closed (P : Params σ) : AClosed P (FineReachA P) :=
+  ⟨fun _ h => .recv h, fun _ h => .dec h, fun _ h => .prod h, fun _ h => .handle h, fun _ h => .resp h,
+   fun k _ h => .complete k h, fun l _ h => .pool l h, fun _ h => .clear h⟩
+
+/-- an engine update under any pool script is a particular sequence of atomic steps. -/
+theorem reachA_fine {P : Params σ} {c : Cfg} {s : ASt σ} (h : ReachA P c s) : FineReachA P s := by
+  obtain ⟨d, ops, rfl⟩ := h
+  exact runOpsA_closed (fineA_closed P) (fun it _ h => .add it h) c ops _ (.init d)
+
+/-- single `update()` calls of any task, in any order, stay inside `FineReachA`. -/
+theorem fineA_task {P : Params σ} {s : ASt σ} (t : Task) (h : FineReachA P s) : FineReachA P (taskUpdateA P t s).1 :=
+  taskUpdateA_closed (fineA_closed P) t s h
+
+theorem ainv_fine {P : Params σ} {s : ASt σ} (h : FineReachA P s) : AInv P s := by
+  induction h with
+  | init d => exact ainv_init P d
+  | add it _ ih => exact ainv_add P it _ ih
+  | recv _ ih => exact (ainv_closed P).recv _ ih
+  | dec _ ih => exact (ainv_closed P).dec _ ih
+  | prod _ ih => exact (ainv_closed P).prod _ ih
+  | handle _ ih => exact (ainv_closed P).handle _ ih
+  | resp _ ih => exact (ainv_closed P).resp _ ih
+  | complete k _ ih => exact (ainv_closed P).complete k _ ih
+  | pool l _ ih => exact (ainv_closed P).pool l _ ih
+  | clear _ ih => exact (ainv_closed P).clear _ ih
+
+/-- **C02 async (conservation of the stream)**: `conservation` and `feedback_once` hold verbatim — the path entry point →
+receiver queue → decider queue → matcher, and the feedback of complex / action events, do not depend on the handler. -/
+theorem conservation_async {P : Params σ} {s : ASt σ} (h : FineReachA P s) :
+    s.entered.map (·.2) = s.popped ++ s.rq ∧
+    (s.entered.map (·.2)).filter P.isValid = s.processed.map (·.1) ++ s.rq.filter P.isValid ∧
+    s.processed.map (·.2) = s.seen ++ s.dq ∧
+    (∀ p ∈ s.processed, Wraps p.1 p.2) ∧
+    (s.entered.filter (fun x => x.1 == .prod)).map (·.2) = s.complexes.map (fun x => Item.ev x.1) ∧
+    (s.entered.filter (fun x => x.1 == .fwd)).map (·.2) = s.actions.map Item.ev := by
+  have i := (ainv_fine h).1
+  refine ⟨i.entered_eq, ?_, i.published_eq, i.wraps, i.fb_prod, i.fb_fwd⟩
+  rw [i.entered_eq, List.filter_append, i.processed_eq]
+
+/-- the caller's `add_data` arguments, in order. -/
+def inputsA : List AOp → List Item
+  | [] => []
+  | .add it :: ops => it :: inputsA ops
+  | .update _ :: ops => inputsA ops
+  | .complete _ :: ops => inputsA ops
+
+theorem extEntered_closedA (P : Params σ) (x : List Item) : AClosed P (fun a => extEntered a.toSt = x) := by
+  refine ⟨fun a h => ?_, fun a h => ?_, fun a h => ?_, fun a h => ?_, fun a h => ?_, fun k a h => ?_, fun l a h => h,
+    fun a h => h⟩
+  · exact (extEntered_task P .receiver a.toSt).trans h
+  · exact (extEntered_task P .decider a.toSt).trans h
+  · exact (extEntered_task P .producer a.toSt).trans h
+  · unfold fwdHandleA
+    split
+    · exact h
+    · split <;> exact h
+  · simp only [fwdResponsesA, liftA, fwdResponses]
+    split
+    · exact h
+    · simpa [extEntered, deliverFwd, addData, List.filter_append] using h
+  · unfold complete
+    split <;> exact h
+
+theorem entry_point_is_inputs_async (P : Params σ) (c : Cfg) (ops : List AOp) :
+    ∀ s : ASt σ, extEntered (runOpsA P c s ops).toSt = extEntered s.toSt ++ inputsA ops := by
+  induction ops with
+  | nil => intro s; simp [runOpsA, inputsA]
+  | cons o ops ih =>
+    intro s
+    simp only [runOpsA, List.foldl_cons] at ih ⊢
+    rw [ih]
+    cases o with
+    | add it => simp [applyOpA, inputsA, extEntered, addDataA, addData, List.filter_append]
+    | update script =>
+      have : extEntered (engineUpdateA P c { s with pool := script }).toSt = extEntered s.toSt :=
+        engineUpdateA_closed (extEntered_closedA P _) c _ rfl
+      simp [applyOpA, inputsA, this]
+    | complete k =>
+      have : extEntered (complete k s).toSt = extEntered s.toSt :=
+        (extEntered_closedA P _).complete k s rfl
+      simp [applyOpA, inputsA, this]
+
+/-- **C02 async (conservation), in the property's own terms**: `conservation_ops` for every sequence of `add_data`,
+`BoboEngine.update` (any pool script) and pool completions on a fresh engine. -/
+theorem conservation_ops_async (P : Params σ) (c : Cfg) (d : σ) (ops : List AOp) :
+    let s := runOpsA P c (initA d) ops
+    extEntered s.toSt = inputsA ops ∧
+    (s.entered.map (·.2)).filter P.isValid = s.processed.map (·.1) ++ s.rq.filter P.isValid ∧
+    s.processed.map (·.2) = s.seen ++ s.dq ∧
+    (∀ p ∈ s.processed, Wraps p.1 p.2) := by
+  have h := conservation_async (reachA_fine (P := P) (c := c) ⟨d, ops, rfl⟩)
+  refine ⟨?_, h.2.1, h.2.2.1, h.2.2.2.1⟩
+  rw [entry_point_is_inputs_async]; simp [extEntered, initA, init]
+
+/-- **C02 async (1:1:1, contents)**.  In every reachable state, whatever the pool has done so far:
+the producer part is as in `one_one_one`;
+`handle` calls = one per complex event the forwarder took whose phenomenon has an action, in order;
+every `handle` call is EITHER executed OR in flight (multiset equality: the completion order is arbitrary) — no
+execution without a dispatch, none executed twice, none lost;
+what is in flight is the phenomenon's own action;
+executions and responses are produced together, and each response is THE response of its own complex event
+(action name, that event, what `execute` returned on that event);
+responses = responses taken ++ response queue (each taken at most once, FIFO);
+action events are, field by field, the responses taken. -/
+theorem one_one_one_async {P : Params σ} {s : ASt σ} (h : FineReachA P s) :
+    s.completedLog.map (fun r => (r, true)) = s.prodPopped ++ s.pq ∧
+    s.complexes.map cxOfEvent = (s.prodPopped.filter (known P)).map (cxOfRun P) ∧
+    (∀ x ∈ s.complexes, x.1.kind = .complex) ∧
+    (s.complexes.filter (fwdTakes P)).map (·.1) = s.fwdPopped ++ s.fq ∧
+    s.handed = s.fwdPopped.filterMap (execOf P) ∧
+    s.handed.Perm (s.execs ++ s.inflight.map Job.exec) ∧
+    (∀ j ∈ s.inflight, P.actionOf j.cev.phen = some (j.actName, j.run)) ∧
+    s.execs = s.respLog.map Resp.exec ∧
+    (∀ r ∈ s.respLog, respOf P r.cev = some r) ∧
+    s.respLog = s.respPopped ++ s.hq ∧
+    s.actions.map acOfEvent = s.respPopped.map acOfResp ∧
+    (∀ e ∈ s.actions, e.kind = .action) := by
+  obtain ⟨i, j⟩ := ainv_fine h
+  exact ⟨i.completed_eq, i.complexes_eq, i.complex_kind, by rw [← i.accepted_eq, i.fwd_eq], j.handed_eq,
+    j.handed_perm, j.inflight_ok, j.execs_resp, j.resp_ok, i.resp_eq, i.actions_eq, i.action_kind⟩
+
+/-- does the forwarder hand this complex event to the handler? -/
+def hasAction (P : Params σ) (e : Event) : Bool := (P.actionOf e.phen).isSome
+
+theorem filterMap_execOf_cev (P : Params σ) (l : List Event) :
+    (l.filterMap (execOf P)).map (·.cev) = l.filter (hasAction P) := by
+  induction l with
+  | nil => rfl
+  | cons e l ih =>
+    cases hq : P.actionOf e.phen with
+    | none =>
+      have he : execOf P e = none := by simp [execOf, hq]
+      rw [List.filterMap_cons, he]
+      simp [hasAction, hq, ih]
+    | some a =>
+      have he : execOf P e = some { actName := a.1, cev := e } := by simp [execOf, hq]
+      rw [List.filterMap_cons, he]
+      simp [hasAction, hq, ih]
+
+/-- **C02 async (conservation of the actions)**: every complex event the forwarder accepted whose phenomenon has an
+action is, at every moment, in exactly one of four places — forwarder queue, in flight, response queue (as its
+response), reported (its response taken, and then its action event built: `one_one_one_async`) — as a multiset
+equality, so duplicates (equal events) are counted too. -/
+theorem action_location_async {P : Params σ} {s : ASt σ} (h : FineReachA P s) :
+    (s.fwdAccepted.filter (hasAction P)).Perm
+      (s.fq.filter (hasAction P) ++ s.inflight.map (·.cev) ++ s.hq.map (·.cev) ++ s.respPopped.map (·.cev)) ∧
+    s.actions.length = s.respPopped.length := by
+  obtain ⟨i, j⟩ := ainv_fine h
+  constructor
+  · have h1 : s.fwdPopped.filter (hasAction P) = s.handed.map (·.cev) := by
+      rw [j.handed_eq, filterMap_execOf_cev]
+    have h2 : (s.handed.map (·.cev)).Perm (s.execs.map (·.cev) ++ (s.inflight.map Job.exec).map (·.cev)) := by
+      simpa using j.handed_perm.map (·.cev)
+    have h3 : s.execs.map (·.cev) = s.respPopped.map (·.cev) ++ s.hq.map (·.cev) := by
+      rw [j.execs_resp, i.resp_eq]; simp [Resp.exec, Function.comp_def]
+    have h4 : (s.inflight.map Job.exec).map (·.cev) = s.inflight.map (·.cev) := by simp [Job.exec]
+    rw [i.fwd_eq, List.filter_append, h1]
+    rw [h3, h4] at h2
+    -- popped ++ fq  ~  fq ++ popped  ~  fq ++ (resp ++ hq ++ inflight)  ~  fq ++ inflight ++ hq ++ resp
+    refine List.perm_append_comm.trans ?_
+    simp only [List.append_assoc]
+    refine List.Perm.append_left _ (h2.trans ?_)
+    refine List.perm_append_comm.trans (List.Perm.append_left _ List.perm_append_comm)
+  · have := congrArg List.length i.actions_eq
+    simpa using this
+
+
+/-- **C02 async (matching)**: whatever the completion order, the `i`-th action event published carries the action
+name, success and data of the execution of ITS OWN complex event: it is built from the `i`-th response taken, whose
+complex event `r.cev` the forwarder took and dispatched, whose execution `⟨name, r.cev⟩` was performed, and whose
+name / success / data are the phenomenon's action `(name, f)` and `f r.cev`. -/
+theorem matching_async {P : Params σ} {s : ASt σ} (h : FineReachA P s) (i : Nat) (hi : i < s.actions.length) :
+    ∃ (r : Resp) (name : String) (f : Event → Bool × Data),
+      s.respPopped[i]? = some r ∧ r.cev ∈ s.fwdPopped ∧ P.actionOf r.cev.phen = some (name, f) ∧
+      ({ actName := name, cev := r.cev } : Exec) ∈ s.execs ∧
+      (s.actions[i]).kind = .action ∧ (s.actions[i]).actName = name ∧
+      (s.actions[i]).success = (f r.cev).1 ∧ (s.actions[i]).data = (f r.cev).2 ∧
+      (s.actions[i]).phen = r.cev.phen ∧ (s.actions[i]).pat = r.cev.pat := by
+  obtain ⟨u, d⟩ := ainv_fine h
+  have hlen : s.actions.length = s.respPopped.length := by simpa using congrArg List.length u.actions_eq
+  have hi' : i < s.respPopped.length := hlen ▸ hi
+  let r := s.respPopped[i]
+  have hr : r ∈ s.respPopped := List.getElem_mem hi'
+  have hview : acOfEvent (s.actions[i]) = acOfResp r := by
+    have h1 : (s.actions.map acOfEvent)[i]? = (s.respPopped.map acOfResp)[i]? := by rw [u.actions_eq]
+    simpa [List.getElem?_map, List.getElem?_eq_getElem hi, List.getElem?_eq_getElem hi'] using h1
+  have hlog : r ∈ s.respLog := by rw [u.resp_eq]; exact List.mem_append_left _ hr
+  have hok := d.resp_ok r hlog
+  simp only [respOf, Option.map_eq_some_iff] at hok
+  obtain ⟨⟨name, f⟩, ha, hreq⟩ := hok
+  have hn : name = r.actName := congrArg Resp.actName hreq
+  have hsu : (f r.cev).1 = r.success := congrArg Resp.success hreq
+  have hda : (f r.cev).2 = r.data := congrArg Resp.data hreq
+  have hex : ({ actName := name, cev := r.cev } : Exec) ∈ s.execs := by
+    rw [d.execs_resp]
+    exact List.mem_map.2 ⟨r, hlog, by simp [Resp.exec, hn]⟩
+  have hhand : ({ actName := name, cev := r.cev } : Exec) ∈ s.handed :=
+    d.handed_perm.mem_iff.2 (List.mem_append_left _ hex)
+  have hpop : r.cev ∈ s.fwdPopped := by
+    rw [d.handed_eq] at hhand
+    obtain ⟨e, he, hee⟩ := List.mem_filterMap.1 hhand
+    simp only [execOf, Option.map_eq_some_iff] at hee
+    obtain ⟨a, _, ha2⟩ := hee
+    have : e = r.cev := by simpa using congrArg Exec.cev ha2
+    exact this ▸ he
+  refine ⟨r, name, f, List.getElem?_eq_getElem hi', hpop, ha, hex, u.action_kind _ (List.getElem_mem hi), ?_⟩
+  have h1 := congrArg AcView.actName hview
+  have h2 := congrArg AcView.success hview
+  have h3 := congrArg AcView.data hview
+  have h4 := congrArg AcView.phen hview
+  have h5 := congrArg AcView.pat hview
+  simp only [acOfEvent, acOfResp] at h1 h2 h3 h4 h5
+  exact ⟨h1.trans hn.symm, h2.trans hsu.symm, h3.trans hda.symm, h4, h5⟩
+
+theorem completedLog_known_async {P : Params σ} (hk : KnownOut P) {s : ASt σ} (h : FineReachA P s) :
+    ∀ r ∈ s.completedLog, (P.datagenOf r.phen).isSome = true := by
+  induction h with
+  | init d => simp [initA, init]
+  | add it _ ih => simpa [addDataA, addData] using ih
+  | clear _ ih => simpa using ih
+  | pool l _ ih => simpa using ih
+  | @complete s k _ ih =>
+    unfold Bobo.Engine.complete
+    split
+    · exact ih
+    · simpa using ih
+  | @handle s _ ih =>
+    unfold fwdHandleA
+    split
+    · exact ih
+    · split <;> simpa using ih
+  | @resp s _ ih =>
+    simp only [fwdResponsesA, liftA, fwdResponses]
+    split
+    · exact ih
+    · simpa [deliverFwd, addData] using ih
+  | @recv s _ ih =>
+    simp only [liftA, recvUpdate]
+    split
+    · exact ih
+    · simp only [processData]
+      split
+      · exact ih
+      · rename_i it _ _ _
+        cases it <;> simpa [deliverRecv] using ih
+  | @prod s _ ih =>
+    simp only [liftA, prodUpdate]
+    split
+    · exact ih
+    · split
+      · exact ih
+      · simp only [subsOf_producer, List.foldl_cons, List.foldl_nil, deliverProd]
+        split <;> simpa [addData] using ih
+  | @dec s _ ih =>
+    simp only [liftA, decUpdate]
+    split
+    · exact ih
+    · rename_i e rest _
+      split
+      · intro r hr
+        simp only [deliverDec, subsOf_decider, List.foldl_cons, List.foldl_nil, List.mem_append] at hr
+        rcases hr with hr | hr
+        · exact ih r hr
+        · exact hk _ _ r hr
+      · exact ih
+
+/-- **C02 async (1:1:1, counts)** in a single engine whose producer knows the phenomena, at every moment:
+`#complex events = #completed runs notified − |producer queue| = #taken by the forwarder + |forwarder queue|`,
+`#handle calls = #complex events taken whose phenomenon has an action`,
+`#handle calls = #executions + |in flight|`, `#executions = #responses produced`,
+`#responses produced = #action events + |response queue|`. -/
+theorem one_one_one_counts_async {P : Params σ} (hk : KnownOut P) {s : ASt σ} (h : FineReachA P s) :
+    s.complexes.length + s.pq.length = s.completedLog.length ∧
+    s.complexes.length = s.fwdPopped.length + s.fq.length ∧
+    s.handed.length = (s.fwdPopped.filter (hasAction P)).length ∧
+    s.handed.length = s.execs.length + s.inflight.length ∧
+    s.execs.length = s.respLog.length ∧
+    s.respLog.length = s.actions.length + s.hq.length := by
+  obtain ⟨i, j⟩ := ainv_fine h
+  have hck := completedLog_known_async hk h
+  have hmem : ∀ x ∈ s.prodPopped, x.2 = true ∧ known P x = true := by
+    intro x hx
+    have : x ∈ s.completedLog.map (fun r => (r, true)) := by rw [i.completed_eq]; exact List.mem_append_left _ hx
+    obtain ⟨r, hr, rfl⟩ := List.mem_map.1 this
+    exact ⟨rfl, hck r hr⟩
+  have hfilt : s.prodPopped.filter (known P) = s.prodPopped :=
+    List.filter_eq_self.2 fun x hx => (hmem x hx).2
+  have hlen : s.complexes.length = s.prodPopped.length := by
+    have := congrArg List.length i.complexes_eq
+    simpa [hfilt] using this
+  have hloc : ∀ x ∈ s.complexes, x.2 = true := by
+    intro x hx
+    have h1 : cxOfEvent x ∈ s.complexes.map cxOfEvent := List.mem_map_of_mem hx
+    rw [i.complexes_eq] at h1
+    obtain ⟨y, hy, hxy⟩ := List.mem_map.1 h1
+    have := (hmem y ((List.mem_filter.1 hy).1)).1
+    have h2 : (cxOfRun P y).loc = (cxOfEvent x).loc := by rw [hxy]
+    simp only [cxOfRun, cxOfEvent] at h2
+    rw [← h2]; exact this
+  have htake : s.complexes.filter (fwdTakes P) = s.complexes :=
+    List.filter_eq_self.2 fun x hx => by simp [fwdTakes, hloc x hx]
+  refine ⟨?_, ?_, ?_, ?_, ?_, ?_⟩
+  · have := congrArg List.length i.completed_eq
+    simp at this; omega
+  · have := congrArg List.length (i.accepted_eq.symm.trans i.fwd_eq)
+    simp [htake] at this; omega
+  · rw [← filterMap_execOf_cev, ← j.handed_eq]; simp
+  · simpa using j.handed_perm.length_eq
+  · rw [j.execs_resp]; simp
+  · have h2 := congrArg List.length i.resp_eq
+    have h3 := congrArg List.length i.actions_eq
+    simp at h2 h3; omega
+
+/-! ### what each asynchronous step does -/
+
+/-- `_update_handler`, queue non-empty: ONE complex event is taken; if its phenomenon has an action the pair is handed to
+the pool (appended to `inflight`); NOTHING is executed and no response appears. -/
+theorem fwd_handle_async_dispatches (P : Params σ) (s : ASt σ) (e : Event) (rest : List Event) (hq : s.fq = e :: rest) :
+    let s' := (fwdHandleA P s).1
+    s'.fq = rest ∧ s'.fwdPopped = s.fwdPopped ++ [e] ∧ (fwdHandleA P s).2 = true ∧
+    s'.execs = s.execs ∧ s'.hq = s.hq ∧ s'.respLog = s.respLog ∧ s'.actions = s.actions ∧ s'.rq = s.rq ∧
+    (∀ name f, P.actionOf e.phen = some (name, f) →
+      s'.inflight = s.inflight ++ [{ actName := name, run := f, cev := e }] ∧
+      s'.handed = s.handed ++ [{ actName := name, cev := e }]) ∧
+    (P.actionOf e.phen = none → s'.inflight = s.inflight ∧ s'.handed = s.handed) := by
+  simp only [fwdHandleA, hq]
+  rcases ha : P.actionOf e.phen with _ | ⟨name, f⟩
+  · simp
+  · simp only [Option.some.injEq, Prod.mk.injEq, reduceCtorEq, false_implies, and_true, true_and]
+    rintro _ _ ⟨rfl, rfl⟩
+    exact ⟨rfl, rfl⟩
+
+/-- `complete k` on an existing in-flight execution: exactly that one leaves `inflight`, `execute` is called once on its
+own complex event, and its response goes to the tail of the response queue; no queue of the engine moves. -/
+theorem complete_executes_one (s : ASt σ) (k : Nat) (j : Job) (hk : s.inflight[k]? = some j) :
+    let s' := complete k s
+    s'.inflight = s.inflight.eraseIdx k ∧ s'.execs = s.execs ++ [j.exec] ∧ s'.hq = s.hq ++ [j.resp] ∧
+    s'.respLog = s.respLog ++ [j.resp] ∧ j.resp.cev = j.cev ∧ j.resp.actName = j.actName ∧
+    j.resp.success = (j.run j.cev).1 ∧ j.resp.data = (j.run j.cev).2 ∧
+    s'.rq = s.rq ∧ s'.dq = s.dq ∧ s'.pq = s.pq ∧ s'.fq = s.fq ∧ s'.actions = s.actions ∧ s'.handed = s.handed := by
+  simp [complete, hk, Job.resp]
+
+/-- `complete k` with no `k`-th in-flight execution is not a step. -/
+theorem complete_out_of_range (s : ASt σ) (k : Nat) (hk : s.inflight.length ≤ k) : complete k s = s := by
+  simp [complete, List.getElem?_eq_none hk]
+
+/-- `_update_responses`: AT MOST ONE response is taken per `forwarder.update()`, the oldest; its action event is built
+and fed back to the receiver queue. -/
+theorem fwd_responses_async_takes_one (P : Params σ) (s : ASt σ) :
+    let s' := (fwdResponsesA P s).1
+    s'.hq = s.hq.tail ∧ s'.respPopped = s.respPopped ++ s.hq.head?.toList ∧
+    (∃ evs : List Event, s'.actions = s.actions ++ evs ∧ s'.rq = s.rq ++ evs.map Item.ev ∧
+      evs.map acOfEvent = s.hq.head?.toList.map acOfResp) ∧
+    (fwdResponsesA P s).2 = !s.hq.isEmpty ∧ s'.inflight = s.inflight ∧ s'.fq = s.fq ∧ s'.execs = s.execs := by
+  simp only [fwdResponsesA, liftA, fwdResponses]
+  cases hh : s.hq <;> simp [hh, deliverFwd, addData, mkAction, acOfEvent, acOfResp]
+
+
+/-! ### the `while task.update()` loops terminate, whatever the pool does meanwhile -/
+
+/-- every `update()` that returns True strictly decreases the task's measure — for the forwarder
+`2·|forwarder queue| + |in flight| + |response queue|`, which no completion increases. -/
+theorem update_true_decreases_measure_async (P : Params σ) (t : Task) (s : ASt σ) (h : (stepA P t s).2 = true) :
+    taskMeasureA t (stepA P t s).1 < taskMeasureA t s :=
+  stepA_true_decreases P t s h
+
+/-- **termination of `times = 0`** with a concurrent pool: the loop stops within `taskMeasureA + 1` iterations under
+EVERY script of completions, and any larger fuel gives the same result. -/
+theorem while_loops_terminate_async (P : Params σ) (t : Task) (s : ASt σ) :
+    (whileLoopA (stepA P t) (taskMeasureA t s + 1) s).2 = false ∧
+    ∀ fuel, taskMeasureA t s + 1 ≤ fuel →
+      whileLoopA (stepA P t) fuel s = whileLoopA (stepA P t) (taskMeasureA t s + 1) s :=
+  whileLoopA_fuel (stepA P t) (taskMeasureA t) (stepA_true_decreases P t) _ s (Nat.lt_succ_self _)
+
+/-! ### nothing is left stranded -/
+
+def countUpdatesA : List AOp → Nat
+  | [] => 0
+  | .add _ :: ops => countUpdatesA ops
+  | .update _ :: ops => countUpdatesA ops + 1
+  | .complete _ :: ops => countUpdatesA ops
+
+/-- **no stranding in the engine's queues, unconditionally** (any matcher, any feedback, further input and pool
+completions interleaved in any way, any script inside the updates): after `k` engine updates every queue — the
+response queue included — has lost `min(k, what it was offered)` items. -/
+theorem service_bound_async {P : Params σ} {Q : σ → Prop} (hs : StableOut P Q) (c : Cfg) (ops : List AOp) :
+    ∀ s : ASt σ, HealthyA P Q s →
+    let a := alens s
+    let b := alens (runOpsA P c s ops)
+    let k := countUpdatesA ops
+    min (a.sR + a.rq) (a.sR + k) ≤ b.sR ∧ min (a.sD + a.dq) (a.sD + k) ≤ b.sD ∧
+    min (a.sP + a.pq) (a.sP + k) ≤ b.sP ∧ min (a.sF + a.fq) (a.sF + k) ≤ b.sF ∧
+    min (a.sH + a.hq) (a.sH + k) ≤ b.sH := by
+  induction ops with
+  | nil => intro s _; simp [runOpsA, countUpdatesA]
+  | cons o ops ih =>
+    intro s hh
+    simp only [runOpsA, List.foldl_cons] at ih ⊢
+    cases o with
+    | add it =>
+      have h := ih (addDataA .ext it s) (healthyA_add it s hh)
+      have e : alens (addDataA .ext it s) = { alens s with rq := (alens s).rq + 1 } := by
+        simp [alens, addDataA, addData]
+      simp only [applyOpA, countUpdatesA]
+      rw [e] at h
+      dsimp only at h ⊢
+      exact ⟨by omega, h.2.1, h.2.2.1, h.2.2.2.1, h.2.2.2.2⟩
+    | complete k =>
+      obtain ⟨g1, g2, g3, g4, g5⟩ := ih (complete k s) ((healthyA_closed hs).complete k s hh)
+      obtain ⟨n, hc⟩ := eff_complete k s
+      simp only [applyOpA, countUpdatesA]
+      refine ⟨?_, ?_, ?_, ?_, ?_⟩ <;> omega
+    | update script =>
+      have hh0 : HealthyA P Q { s with pool := script } := hh
+      have h1 := engineUpdateA_serves hs c _ hh0
+      have hh' : HealthyA P Q (engineUpdateA P c { s with pool := script }) :=
+        engineUpdateA_closed (healthyA_closed hs) c _ hh0
+      have h2 := ih _ hh'
+      have h3 := offered_engineA P c { s with pool := script }
+      simp only [applyOpA, countUpdatesA]
+      rw [alens_pool] at h1 h3
+      dsimp only [OfferedA] at h1 h2 h3 ⊢
+      exact ⟨chain_min h1.1 h3.1 h2.1, chain_min h1.2.1 h3.2.1 h2.2.1, chain_min h1.2.2.1 h3.2.2.1 h2.2.2.1,
+        chain_min h1.2.2.2.1 h3.2.2.2.1 h2.2.2.2.1, chain_min h1.2.2.2.2 h3.2.2.2.2 h2.2.2.2.2⟩
+
+/-- items in the five queues, weighted by the hand-overs still ahead of them (`muA` without the in-flight part). -/
+def drainA (a : ALens) : Nat := 8 * a.pq + 5 * a.fq + 3 * a.hq + 2 * a.rq + a.dq
+
+/-- `n` engine updates during which the pool finishes nothing. -/
+def iterUpdateA (P : Params σ) (c : Cfg) : Nat → ASt σ → ASt σ
+  | 0, s => s
+  | n + 1, s => iterUpdateA P c n (applyOpA P c s (.update []))
+
+theorem iterUpdateA_runOpsA (P : Params σ) (c : Cfg) : ∀ n (s : ASt σ),
+    iterUpdateA P c n s = runOpsA P c s (List.replicate n (.update [])) := by
+  intro n
+  induction n with
+  | zero => intro s; rfl
+  | succ n ih => intro s; simp only [iterUpdateA, List.replicate_succ, runOpsA, List.foldl_cons]; exact ih _
+
+/-- **no stranding (draining)**: input has stopped and the matcher completes nothing any more (`Quiet`).  From ANY
+state `s` (in particular: after any interleaving of updates and completions), `drainA` further engine updates —
+a bound in the queue lengths of `s` only — empty all four task queues and the response queue, for every
+configuration; only what the pool has not finished yet (`inflight`, which can only have grown) is still pending.
+Fairness is needed for exactly that rest: see `drained_async`. -/
+theorem no_stranding_async {P : Params σ} {Q : σ → Prop} (hq : Quiet P Q) (c : Cfg) :
+    ∀ (n : Nat) (s : ASt σ), HealthyA P Q s → drainA (alens s) ≤ n →
+      let s' := iterUpdateA P c n s
+      s'.rq = [] ∧ s'.dq = [] ∧ s'.pq = [] ∧ s'.fq = [] ∧ s'.hq = [] ∧ s.inflight.length ≤ s'.inflight.length := by
+  intro n
+  induction n with
+  | zero =>
+    intro s _ h
+    simp only [drainA, alens, Nat.le_zero_eq] at h
+    simp only [iterUpdateA]
+    refine ⟨?_, ?_, ?_, ?_, ?_, Nat.le_refl _⟩ <;> apply List.eq_nil_of_length_eq_zero <;> omega
+  | succ n ih =>
+    intro s hh h
+    simp only [iterUpdateA, applyOpA]
+    have hh0 : HealthyA P Q { s with pool := [] } := hh
+    have hp : muA (alens (engineUpdateA P c { s with pool := [] })) ≤ muA (alens s) ∧
+        ((alens s).rq + (alens s).dq + (alens s).pq + (alens s).fq + (alens s).hq ≠ 0 →
+          muA (alens (engineUpdateA P c { s with pool := [] })) < muA (alens s)) :=
+      engineUpdateA_progress hq c _ hh0
+    have hinf : (alens s).inf ≤ (alens (engineUpdateA P c { s with pool := [] })).inf :=
+      (engineUpdateA_silent P c { s with pool := [] } rfl).2
+    have hstep := ih (engineUpdateA P c { s with pool := [] })
+      (engineUpdateA_closed (healthyA_closed hq.stable) c _ hh0) (by
+        simp only [drainA, muA] at h hp ⊢
+        omega)
+    have hinf' : s.inflight.length ≤ (engineUpdateA P c { s with pool := [] }).inflight.length := hinf
+    exact ⟨hstep.1, hstep.2.1, hstep.2.2.1, hstep.2.2.2.1, hstep.2.2.2.2.1, Nat.le_trans hinf' hstep.2.2.2.2.2⟩
+
+/-- under `KnownOut` every complex event built reaches the forwarder. -/
+theorem complexes_reach_forwarder_async {P : Params σ} (hk : KnownOut P) {s : ASt σ} (h : FineReachA P s) :
+    s.complexes.map (·.1) = s.fwdPopped ++ s.fq := by
+  obtain ⟨i, j⟩ := ainv_fine h
+  have hck := completedLog_known_async hk h
+  have hloc : ∀ x ∈ s.complexes, x.2 = true := by
+    intro x hx
+    have h1 : cxOfEvent x ∈ s.complexes.map cxOfEvent := List.mem_map_of_mem hx
+    rw [i.complexes_eq] at h1
+    obtain ⟨y, hy, hxy⟩ := List.mem_map.1 h1
+    have hy' : y ∈ s.completedLog.map (fun r => (r, true)) := by
+      rw [i.completed_eq]; exact List.mem_append_left _ (List.mem_filter.1 hy).1
+    obtain ⟨r, _, rfl⟩ := List.mem_map.1 hy'
+    have h2 : (cxOfRun P (r, true)).loc = (cxOfEvent x).loc := by rw [hxy]
+    simpa [cxOfRun, cxOfEvent] using h2.symm
+  have htake : s.complexes.filter (fwdTakes P) = s.complexes :=
+    List.filter_eq_self.2 fun x hx => by simp [fwdTakes, hloc x hx]
+  rw [← i.fwd_eq, i.accepted_eq, htake]
+
+/-- **`one_one_one` for the asynchronous handler, once drained**: when the producer queue, the forwarder queue, the
+response queue are empty and nothing is in flight,
+`#completed runs notified = #complex events`, and
+`#complex events whose phenomenon has an action = #handle calls = #executions = #action events`;
+moreover the executions are, as a multiset, exactly the `handle` calls. -/
+theorem one_one_one_drained_async {P : Params σ} (hk : KnownOut P) {s : ASt σ} (h : FineReachA P s)
+    (hp : s.pq = []) (hf : s.fq = []) (hh : s.hq = []) (hi : s.inflight = []) :
+    s.completedLog.length = s.complexes.length ∧
+    ((s.complexes.map (·.1)).filter (hasAction P)).length = s.handed.length ∧
+    s.handed.length = s.execs.length ∧ s.execs.length = s.actions.length ∧
+    s.handed.Perm s.execs ∧ s.respPopped = s.respLog := by
+  have hc := one_one_one_counts_async hk h
+  have hr := complexes_reach_forwarder_async hk h
+  obtain ⟨i, j⟩ := ainv_fine h
+  rw [hp, hf, hh, hi] at hc
+  rw [hf, List.append_nil] at hr
+  simp only [List.length_nil, Nat.add_zero] at hc
+  refine ⟨by omega, by rw [hr]; omega, by omega, by omega, ?_, ?_⟩
+  · simpa [hi] using j.handed_perm
+  · simpa [hh] using i.resp_eq.symm
+
+/-- **no stranding, end to end**: a fresh engine, ANY interleaving `ops` of `add_data`, engine updates (any script of
+completions inside them) and pool completions; then input stops in a feedback-quiet region (`HealthyA P Q`: no pending
+exception, the matcher state satisfies `Q`, and `Quiet P Q`), the engine is updated `n ≥ drainA` more times (bound in the
+queue lengths after `ops`), and — FAIRNESS, stated on the run — at the end nothing is in flight.  Then all four task
+queues and the response queue are empty and the drained 1:1:1 counts hold. -/
+theorem drained_async {P : Params σ} {Q : σ → Prop} (hq : Quiet P Q) (hk : KnownOut P) (c : Cfg) (d : σ)
+    (ops : List AOp) (n : Nat) :
+    let s1 := runOpsA P c (initA d) ops
+    let s2 := iterUpdateA P c n s1
+    HealthyA P Q s1 → drainA (alens s1) ≤ n → s2.inflight = [] →
+      s2.rq = [] ∧ s2.dq = [] ∧ s2.pq = [] ∧ s2.fq = [] ∧ s2.hq = [] ∧
+      s2.completedLog.length = s2.complexes.length ∧
+      ((s2.complexes.map (·.1)).filter (hasAction P)).length = s2.execs.length ∧
+      s2.execs.length = s2.actions.length := by
+  intro s1 s2 hh hn hfair
+  have hd := no_stranding_async hq c n s1 hh hn
+  have hreach : FineReachA P s2 := by
+    apply reachA_fine (c := c)
+    refine ⟨d, ops ++ List.replicate n (.update []), ?_⟩
+    show iterUpdateA P c n (runOpsA P c (initA d) ops) = _
+    rw [iterUpdateA_runOpsA, runOpsA, runOpsA, runOpsA, List.foldl_append]
+  have h1 := one_one_one_drained_async hk hreach hd.2.2.1 hd.2.2.2.1 hd.2.2.2.2.1 hfair
+  exact ⟨hd.1, hd.2.1, hd.2.2.1, hd.2.2.2.1, hd.2.2.2.2.1, h1.1, by omega, h1.2.2.2.1⟩
+
+/-! ### every interleaving: the total work is bounded (no livelock) -/
+
+/-- does this operation do anything in state `s`?  An engine update with a non-empty queue; a completion of an existing
+in-flight execution. -/
+def busyA (s : ASt σ) : AOp → Bool
+  | .add _ => false
+  | .update _ => !(s.rq.isEmpty && s.dq.isEmpty && s.pq.isEmpty && s.fq.isEmpty && s.hq.isEmpty)
+  | .complete k => decide (k < s.inflight.length)
+
+def countBusyA (P : Params σ) (c : Cfg) : ASt σ → List AOp → Nat
+  | _, [] => 0
+  | s, o :: ops => (if busyA s o then 1 else 0) + countBusyA P c (applyOpA P c s o) ops
+
+def noAdds : List AOp → Bool
+  | [] => true
+  | .add _ :: _ => false
+  | _ :: ops => noAdds ops
+
+theorem complete_muA (k : Nat) (s : ASt σ) :
+    muA (alens (complete k s)) + (if k < s.inflight.length then 1 else 0) = muA (alens s) := by
+  unfold complete
+  split
+  · rename_i hn
+    have : ¬ k < s.inflight.length := by
+      intro hk; simp [List.getElem?_eq_getElem hk] at hn
+    simp [this]
+  · rename_i j hj
+    have hk : k < s.inflight.length := by
+      rcases Nat.lt_or_ge k s.inflight.length with h | h
+      · exact h
+      · simp [List.getElem?_eq_none h] at hj
+    simp only [alens, muA, List.length_eraseIdx, hk, if_true, List.length_append, List.length_cons, List.length_nil]
+    omega
+
+/-- **bounded work**: input has stopped, the matcher is quiet.  In EVERY interleaving of engine updates (any scripts)
+and completions, each effective operation (`busyA`) strictly decreases `muA`, and no operation increases it: at most
+`muA` (a function of the queue lengths and the number in flight) effective operations can ever happen.  So a pool and
+a caller that keep making an effective step while one exists — fairness — reach, within `muA` such steps, a state where
+none exists, which is a drained state (`quiescent_is_drained_async`). -/
+theorem work_bounded_async {P : Params σ} {Q : σ → Prop} (hq : Quiet P Q) (c : Cfg) (ops : List AOp) :
+    ∀ s : ASt σ, HealthyA P Q s → noAdds ops = true →
+      countBusyA P c s ops + muA (alens (runOpsA P c s ops)) ≤ muA (alens s) := by
+  induction ops with
+  | nil => intro s _ _; simp [countBusyA, runOpsA]
+  | cons o ops ih =>
+    intro s hh hna
+    simp only [runOpsA, List.foldl_cons, countBusyA] at ih ⊢
+    cases o with
+    | add it => simp [noAdds] at hna
+    | complete k =>
+      have h := ih (complete k s) ((healthyA_closed hq.stable).complete k s hh) (by simpa [noAdds] using hna)
+      have hm := complete_muA k s
+      simp only [applyOpA, busyA, decide_eq_true_eq] at h ⊢
+      omega
+    | update script =>
+      have hh0 : HealthyA P Q { s with pool := script } := hh
+      have hp : muA (alens (engineUpdateA P c { s with pool := script })) ≤ muA (alens s) ∧
+          ((alens s).rq + (alens s).dq + (alens s).pq + (alens s).fq + (alens s).hq ≠ 0 →
+            muA (alens (engineUpdateA P c { s with pool := script })) < muA (alens s)) :=
+        engineUpdateA_progress hq c _ hh0
+      have h := ih _ (engineUpdateA_closed (healthyA_closed hq.stable) c _ hh0) (by simpa [noAdds] using hna)
+      simp only [applyOpA] at h ⊢
+      by_cases hb : busyA s (.update script) = true
+      · have hb' : (!(s.rq.isEmpty && s.dq.isEmpty && s.pq.isEmpty && s.fq.isEmpty && s.hq.isEmpty)) = true := hb
+        have hne : (alens s).rq + (alens s).dq + (alens s).pq + (alens s).fq + (alens s).hq ≠ 0 := by
+          intro h0
+          simp only [alens] at h0
+          have e1 : s.rq = [] := List.eq_nil_of_length_eq_zero (by omega)
+          have e2 : s.dq = [] := List.eq_nil_of_length_eq_zero (by omega)
+          have e3 : s.pq = [] := List.eq_nil_of_length_eq_zero (by omega)
+          have e4 : s.fq = [] := List.eq_nil_of_length_eq_zero (by omega)
+          have e5 : s.hq = [] := List.eq_nil_of_length_eq_zero (by omega)
+          simp [e1, e2, e3, e4, e5] at hb'
+        have := hp.2 hne
+        rw [if_pos hb]
+        omega
+      · rw [if_neg hb]
+        omega
+
+/-- a state in which no operation is effective is drained: all queues empty and nothing in flight. -/
+theorem quiescent_is_drained_async (s : ASt σ) (hu : busyA s (.update []) = false) (hc : busyA s (.complete 0) = false) :
+    s.rq = [] ∧ s.dq = [] ∧ s.pq = [] ∧ s.fq = [] ∧ s.hq = [] ∧ s.inflight = [] := by
+  simp only [busyA, Bool.not_eq_false', Bool.and_eq_true, List.isEmpty_iff, decide_eq_false_iff_not, Nat.not_lt,
+    Nat.le_zero_eq, List.length_eq_zero_iff] at hu hc
+  exact ⟨hu.1.1.1.1, hu.1.1.1.2, hu.1.1.2, hu.1.2, hu.2, hc⟩
+
+
+/-! ### tie to the blocking model -/
+
+/-- a pool that finishes each execution at once — between the two halves of the `forwarder.update()` that dispatched
+it — IS the blocking handler: `_update_handler` followed by `complete 0` acts on the `St` part exactly as the blocking
+`fwdHandle` (same execution, same response queued), and leaves nothing in flight. -/
+theorem eager_pool_is_blocking (P : Params σ) (a : ASt σ) (hi : a.inflight = []) :
+    (complete 0 (fwdHandleA P a).1).toSt = (fwdHandle P a.toSt).1 ∧
+    (complete 0 (fwdHandleA P a).1).inflight = [] ∧
+    (fwdHandleA P a).2 = (fwdHandle P a.toSt).2 := by
+  unfold fwdHandleA fwdHandle
+  cases hf : a.fq with
+  | nil => simp [complete, hi]
+  | cons e rest =>
+    rcases ha : P.actionOf e.phen with _ | ⟨name, f⟩
+    · simp [complete, hi, ha]
+    · simp [complete, hi, ha, Job.resp, Job.exec]
+
+/-- hence one `forwarder.update()` under the script "nothing, then finish what was just dispatched" is the blocking
+model's `fwdUpdate` on the `St` part (queues, generators, every ghost variable of Model/Engine.lean), and leaves
+nothing in flight: the blocking handler is one behaviour of the asynchronous one. -/
+theorem eager_forwarder_update_is_blocking (P : Params σ) (a : ASt σ) (hi : a.inflight = []) (rest : List (List Nat))
+    (hp : a.pool = [] :: [0] :: rest) :
+    (stepA P .forwarder a).1.toSt = (fwdUpdate P a.toSt).1 ∧ (stepA P .forwarder a).2 = (fwdUpdate P a.toSt).2 ∧
+    (stepA P .forwarder a).1.inflight = [] ∧ (stepA P .forwarder a).1.pool = rest := by
+  have h := eager_pool_is_blocking P a hi
+  have e1 : poolStep a = { a with pool := [0] :: rest } := by simp [poolStep, hp, completeMany]
+  have e2 : poolStep { (fwdHandleA P a).1 with pool := [0] :: rest } =
+      { complete 0 (fwdHandleA P a).1 with pool := rest } := by
+    simp only [poolStep, completeMany, List.foldl_cons, List.foldl_nil]
+    exact complete_pool 0 _ rest
+  have e3 : stepA P .forwarder a =
+      ((fwdResponsesA P (poolStep (fwdHandleA P (poolStep a)).1)).1,
+       (fwdHandleA P (poolStep a)).2 || (fwdResponsesA P (poolStep (fwdHandleA P (poolStep a)).1)).2) := rfl
+  rw [e3, e1, fwdHandleA_pool]
+  show (fwdResponsesA P (poolStep { (fwdHandleA P a).1 with pool := [0] :: rest })).1.toSt = _ ∧
+    ((fwdHandleA P a).2 || (fwdResponsesA P (poolStep { (fwdHandleA P a).1 with pool := [0] :: rest })).2) = _ ∧
+    (fwdResponsesA P (poolStep { (fwdHandleA P a).1 with pool := [0] :: rest })).1.inflight = [] ∧
+    (fwdResponsesA P (poolStep { (fwdHandleA P a).1 with pool := [0] :: rest })).1.pool = rest
+  rw [e2]
+  refine ⟨?_, ?_, h.2.1, rfl⟩
+  · show (fwdResponses P (complete 0 (fwdHandleA P a).1).toSt).1 = _
+    rw [h.1]; rfl
+  · show ((fwdHandleA P a).2 || (fwdResponses P (complete 0 (fwdHandleA P a).1).toSt).2) = _
+    rw [h.1, h.2.2]; rfl
+
+/-! ### the history variables are only history (asynchronous engine) -/
+
+/-- **ghost_free, asynchronous**: two states that agree on the real fields (the `St` core of `ghost_free`, what is in
+flight, the pool script) still agree on them after any operation — `add_data`, an engine update under any script, a
+pool completion — whatever their ghost fields (those of `St`, and `handed`) hold. -/
+theorem ghost_free_async (P : Params σ) (c : Cfg) (o : AOp) (s s' : ASt σ) (h : CoreEq s s') :
+    CoreEq (applyOpA P c s o) (applyOpA P c s' o) := by
+  cases o with
+  | update script => exact coreEq_engineUpdateA P c _ _ ⟨h.1, h.2.1, rfl⟩
+  | complete k => exact coreEq_complete k s s' h
+  | add it =>
+    obtain ⟨h1, h2, h3, h4, h5, h6, h7, h8, h9⟩ := core_fields h.1
+    exact ⟨core_of_fields (by simp [applyOpA, addDataA, addData, *]), h.2.1, h.2.2⟩
+
+/-! ### non-vacuity and the honest negatives for the asynchronous handler -/
+
+/-- the first two data `2` complete a run of `p` each (the `k`-th with a history of `k` groups, so the datagen value
+`k` tells the complex events apart); `p`'s action reports its event's data, and success iff that data is `1`. -/
+def demoA : Params Nat :=
+  { decide := fun n e =>
+      match e.kind, e.data with
+      | .simple, .int 2 =>
+        if n < 2 then (n + 1, ⟨[⟨"r", "p", "pat", 1, List.replicate (n + 1) ("g", [])⟩], [], []⟩)
+        else (n, ⟨[], [], []⟩)
+      | _, _ => (n, ⟨[], [], []⟩)
+    isValid := fun _ => true
+    datagenOf := fun ph => if ph = "p" then some (some fun h => .int h.length) else none
+    actionOf := fun ph => if ph = "p" then some ("act", fun e => (e.data == .int 1, e.data)) else none
+    idOf := fun k => toString k
+    tsOf := fun k => k }
+
+/-- two data, one engine update (all `times_* = 0`): both runs complete, both complex events are built and dispatched. -/
+def demoAStart : List AOp := [.add (.raw (.int 2)), .add (.raw (.int 2)), .update []]
+
+set_option maxRecDepth 8192 in
+/-- after `demoAStart` BOTH actions are in flight at once (complex events with data 1 and 2, in dispatch order),
+nothing has been executed, no response, no action event. -/
+example :
+    let s := runOpsA demoA {} (initA 0) demoAStart
+    s.inflight.map (·.cev.data) = [.int 1, .int 2] ∧ s.handed.length = 2 ∧ s.execs = [] ∧ s.hq = [] ∧
+    s.actions = [] ∧ s.fq = [] ∧ s.complexes.length = 2 ∧ s.completedLog.length = 2 := by
+  decide
+
+/-- the pool finishes them in the REVERSE order; five more engine updates. -/
+def demoAOps : List AOp := demoAStart ++ [.complete 1, .complete 0, .update [], .update [], .update [], .update [], .update []]
+
+set_option maxRecDepth 8192 in
+/-- **reverse completion order, right pairing**: the action events come out in completion order (data 2 first), each
+with the success / data of ITS OWN complex event (`success = (data == 1)`); executions in completion order; everything
+drained; 2 completed runs = 2 complex events = 2 executions = 2 action events. -/
+example :
+    let s := runOpsA demoA {} (initA 0) demoAOps
+    s.actions.map acOfEvent = [⟨.int 2, "p", "pat", "act", false⟩, ⟨.int 1, "p", "pat", "act", true⟩] ∧
+    s.execs.map (·.cev.data) = [.int 2, .int 1] ∧ s.handed.map (·.cev.data) = [.int 1, .int 2] ∧
+    s.respPopped.map (fun r => (r.cev.data, r.success, r.data)) = [(.int 2, false, .int 2), (.int 1, true, .int 1)] ∧
+    s.completedLog.length = 2 ∧ s.complexes.length = 2 ∧ s.execs.length = 2 ∧ s.actions.length = 2 ∧
+    s.inflight.length = 0 ∧ s.rq = [] ∧ s.dq = [] ∧ s.pq = [] ∧ s.fq = [] ∧ s.hq = [] ∧ s.err = none := by
+  decide
+
+example : ReachA demoA {} (runOpsA demoA {} (initA 0) demoAOps) := ⟨0, demoAOps, rfl⟩
+
+set_option maxRecDepth 8192 in
+/-- completions INSIDE an engine update (script; 3 + 3 + 3 `update()` calls of receiver, decider, producer come first): with
+`times_forwarder = 2`, each execution finishes between the two halves of the `forwarder.update()` call that dispatched
+it, so its response is taken by that very call — exactly the blocking handler's behaviour — and both action events come
+out of the first engine update, in dispatch order. -/
+example :
+    let s := runOpsA demoA ⟨0, 0, 0, 2, true⟩ (initA 0)
+      [.add (.raw (.int 2)), .add (.raw (.int 2)), .update [[], [], [], [], [], [], [], [], [], [], [0], [], [0]]]
+    s.actions.map acOfEvent = [⟨.int 1, "p", "pat", "act", true⟩, ⟨.int 2, "p", "pat", "act", false⟩] ∧
+    s.inflight.length = 0 ∧ s.hq = [] ∧ s.fq = [] := by
+  decide
+
+/-- the hypotheses of `service_bound_async` / `no_stranding_async` / `drained_async` are satisfiable, with work in flight. -/
+example : Quiet demoA (fun n => 2 ≤ n) := by
+  intro ds hq e
+  simp only [demoA]
+  split
+  · rw [if_neg (by omega)]; exact ⟨hq, rfl⟩
+  · exact ⟨hq, rfl⟩
+
+example : KnownOut demoA := by
+  intro ds e r hr
+  simp only [demoA] at hr ⊢
+  split at hr
+  · split at hr
+    · simp at hr; subst hr; simp
+    · simp at hr
+  · simp at hr
+
+set_option maxRecDepth 8192 in
+example :
+    let s := runOpsA demoA {} (initA 0) demoAStart
+    2 ≤ s.ds ∧ s.err = none ∧ s.pq = [] ∧ drainA (alens s) = 4 ∧ muA (alens s) = 12 := by
+  decide
+
+set_option maxRecDepth 8192 in
+/-- **fairness is necessary**: the pool never finishes — any number of engine updates (here 8 ≥ `drainA` = 4) empties
+the queues (`no_stranding_async`) but no action is executed and no action event is ever published. -/
+example :
+    let s := iterUpdateA demoA {} 8 (runOpsA demoA {} (initA 0) demoAStart)
+    s.rq = [] ∧ s.dq = [] ∧ s.pq = [] ∧ s.fq = [] ∧ s.hq = [] ∧
+    s.inflight.length = 2 ∧ s.execs = [] ∧ s.actions = [] ∧ s.complexes.length = 2 := by
+  decide
+
+set_option maxRecDepth 8192 in
+/-- **the updates must come AFTER the completions** (why `drained_async` counts the updates of the final, pool-silent
+phase and not all of them): 13 engine updates, THEN both completions — at the end nothing is in flight and the engine
+was updated more than `muA` = 12 ≥ `drainA` = 4 times in total, yet two responses are stranded in the response queue and no
+action event exists; only further updates publish them. -/
+example :
+    let s := runOpsA demoA {} (initA 0)
+      (demoAStart ++ List.replicate 13 (.update []) ++ [.complete 0, .complete 0])
+    s.inflight.length = 0 ∧ s.hq.length = 2 ∧ s.actions = [] ∧ s.execs.length = 2 := by
+  decide
+
+set_option maxRecDepth 8192 in
+/-- `forwarder.update()` takes AT MOST ONE response per call: with `times_forwarder = 1` two ready responses need two
+engine updates (after one, one response is still queued). -/
+example :
+    let s := runOpsA demoA ⟨0, 0, 0, 1, true⟩ (initA 0)
+      [.add (.raw (.int 2)), .add (.raw (.int 2)), .update [], .update [], .complete 1, .complete 0, .update []]
+    s.hq.length = 1 ∧ s.actions.length = 1 ∧ s.inflight.length = 0 := by
   decide
 
 end Bobo.Engine
